@@ -431,3 +431,117 @@ class CircleMonitor(object):
             ctx.violation("slice-claims-circular", "record[%r:%r:%r] carries topology=%r" % (index.start, index.stop, index.step, topo), **wit)
         if rec.annotations.get("topology") not in (None, "circular"):
             pass
+
+
+# ----------------------------------------------------------------------------- C04
+
+class FragmentMonitor(object):
+    """C04: whenever overhang_start/overhang_end/target_sequence/placeholder_sequence of any
+    module/vector/part entity returns, the entity's reported tuple is judged (once per entity)
+    against the cut positions found by plain string search (refmodel.cuts)."""
+
+    def __init__(self, ctx):
+        self.ctx = ctx
+        self.busy = False
+
+    def install(self):
+        boot.boot()
+        from moclo.core.modules import AbstractModule
+        from moclo.core.vectors import AbstractVector
+
+        self.AbstractModule, self.AbstractVector = AbstractModule, AbstractVector
+        for cls, names in ((AbstractModule, ("overhang_start", "overhang_end", "target_sequence")),
+                           (AbstractVector, ("overhang_start", "overhang_end", "target_sequence", "placeholder_sequence"))):
+            for name in names:
+                wrap_method(cls, name, self._post)
+
+    def _post(self, ent, a, kw, res, exc, token):
+        if exc is not None or self.busy or getattr(ent, "_verif_c04", False):
+            return
+        self.busy = True
+        try:
+            ent._verif_c04 = True
+            self.judge(ent)
+        finally:
+            self.busy = False
+
+    def judge(self, ent):
+        from . import refmodel, asmmon
+        from .util import circ_slice
+
+        ctx = self.ctx
+        cls = type(ent)
+        rec = ent.record
+        topo = rec.annotations.get("topology", "circular")
+        if not isinstance(topo, str) or topo.lower() != "circular":
+            ctx.count("c04_skipped_linear")
+            return
+        enz = cls.cutter
+        if not asmmon.supported_cutter(enz):
+            ctx.count("c04_skipped_enzyme")
+            return
+        s = str(rec.seq).upper()
+        if set(s) - set("ACGT"):
+            ctx.count("c04_skipped_non_acgt")
+            return
+        N = len(s)
+        geom = refmodel.geometry(enz)
+        k = geom[2]
+        os_ = str(ent.overhang_start()).upper()
+        oe = str(ent.overhang_end()).upper()
+        tgt = str(ent.target_sequence().seq).upper()
+        is_vec = isinstance(ent, self.AbstractVector)
+        cs = refmodel.cuts(s, geom)
+        ctx.count("c04_entities_judged")
+        ctx.hist("c04_class", cls.__name__)
+        ctx.hist("c04_cut_count", min(len(cs), 6))
+        wit = dict(cls=cls.__name__, cutter=str(enz), seq=s if N <= 600 else s[:600] + "...", length=N,
+                   overhang_start=os_, overhang_end=oe, target=tgt[:200], cuts=[(c["orient"], c["cut"], c["ovhg"]) for c in cs][:8])
+        if len(os_) != k or len(oe) != k:
+            ctx.violation("overhang-length", "%s reports overhangs %r/%r but %s leaves %d-nt overhangs" % (cls.__name__, os_, oe, enz, k), **wit)
+            return
+        pairs = []
+        for c1 in cs:
+            if c1["ovhg"] != os_:
+                continue
+            if circ_slice(s, c1["cut"], len(tgt)) != tgt or len(tgt) > N:
+                continue
+            end = (c1["cut"] + len(tgt)) % N
+            for c2 in cs:
+                if c2["cut"] == end and c2["ovhg"] == oe and c2 is not c1:
+                    pairs.append((c1, c2))
+        if not pairs:
+            at_start = [c for c in cs if c["ovhg"] == os_]
+            at_end = [c for c in cs if c["ovhg"] == oe]
+            if not at_start or not at_end:
+                mech = "overhang-not-at-a-cut:" + ("start" if not at_start else "end")
+                msg = "%s accepted the record but its reported %s overhang %r is not the single-stranded end left by %s at any of its cut positions %s" % (
+                    cls.__name__, "upstream" if not at_start else "downstream", os_ if not at_start else oe, enz, wit["cuts"])
+            else:
+                mech = "target-not-between-cuts"
+                msg = "%s: target (%d nt, %r...) is not the stretch from a cut with overhang %r up to (excluding) a cut with overhang %r" % (
+                    cls.__name__, len(tgt), tgt[:30], os_, oe)
+            ctx.violation(mech + (":vector" if is_vec else ":module"), msg, **wit)
+            return
+        ctx.hist("c04_orientation", "%s>%s" % (pairs[0][0]["orient"], pairs[0][1]["orient"]))
+        if not is_vec:
+            flanked = [(c1, c2) for c1, c2 in pairs if c1["orient"] == "fwd" and c2["orient"] == "rev"]
+            if flanked:
+                c1, c2 = flanked[0]
+                L = len(tgt)
+                inside = [c for c in cs if c is not c1 and c is not c2 and 0 < (c["cut"] - c1["cut"]) % N < L]
+                ctx.count("c04_flanked_targets")
+                if inside:
+                    ctx.violation("extra-cut-inside-target", "%s accepted a record whose flanked target holds a further %s cut at offset(s) %s" % (
+                        cls.__name__, enz, [(c["cut"] - c1["cut"]) % N for c in inside]), **wit)
+        if is_vec:
+            ph = str(ent.placeholder_sequence().seq).upper()
+            ctx.count("c04_placeholders_judged")
+            ok = len(ph) + len(tgt) == N and any(
+                circ_slice(s, (c1["cut"] + len(tgt)) % N, N - len(tgt)) == ph for c1, _ in pairs)
+            if not ok:
+                contiguous = len(ph) <= N and ph in s + s[: max(len(ph) - 1, 0)]
+                mech = "placeholder-not-contiguous" if not contiguous else "placeholder-target-not-a-partition"
+                ctx.violation(mech, "%s: placeholder (%d nt, %r...) %s; target has %d nt, plasmid %d" % (
+                    cls.__name__, len(ph), ph[:24], "is not a contiguous stretch of the plasmid" if not contiguous else
+                    "and target do not cover every nucleotide exactly once", len(tgt), N), placeholder=ph[:200], **wit)
